@@ -160,6 +160,11 @@ def _decoy_at(p, ext, fmt):
             pass
 
 
+def join_records(texts):
+    """Records are joined by the delimiter line; a writer that already closes its record with one is taken at its word."""
+    return b"".join((t if t.endswith(b"\n") else t + b"\n") if t.rstrip(b"\r\n").endswith(b"$$$$") else t + b"\n$$$$\n" for t in texts)
+
+
 def sdf_write_read(mol_specs, nl, route, ext, d):
     """mol_specs: [(atoms, gb)] -> (mols-in, wexc, lines, back)"""
     from chmpy import Molecule
@@ -191,7 +196,7 @@ def sdf_write_read(mol_specs, nl, route, ext, d):
     if len(texts) == 1:
         data = texts[0]
     else:
-        data = b"".join(t + b"\n$$$$\n" for t in texts)
+        data = join_records(texts)
     if route == "string":
         back = read_back(lambda: [Molecule.from_sdf_dict(x) for x in parse_sdf_contents(data.decode("latin-1"))], 1)
     else:
@@ -622,7 +627,7 @@ def drive_sdf_file(r, d):
             wexc = type(e).__name__
     lines, back = [], {"exc": "", "offgrid": False, "mols": []}
     if loaded and not wexc:
-        data = texts[0] if len(texts) == 1 else b"".join(t + b"\n$$$$\n" for t in texts)
+        data = texts[0] if len(texts) == 1 else join_records(texts)
         lines = lines_of(data)
         if r["route"] == "string":
             back = read_back(lambda: [Molecule.from_sdf_dict(x) for x in parse_sdf_contents(data.decode("latin-1"))], 1)
